@@ -58,6 +58,10 @@ F9 == {Case(<<<<a>>>>, {}, "none", -1, {}, "none", -1) : a \in Sizes}
       \cup UNION {{Case(<<<<a>>, <<"x">>>>, c, "none", -1, {}, "none", -1) : c \in {{}, {Len1(<<a>>)}}} : a \in {"A4096", "A16384"}}
       \cup {Case(<<<<"A1500">>, <<"A2596">>>>, {}, "none", -1, {}, "none", -1), Case(<<<<"A4000">>, <<"A4192">>>>, {}, "none", -1, {}, "none", -1),
             Case(<<<<"x">>, <<"A8192">>>>, {Len1(<<"x">>)}, "none", -1, {}, "none", -1)}
+      (* a configuration of a megabyte, and of 16 MiB give or take a few bytes, with the next message behind it in the same *)
+      (* write or in a write of its own                                                                                  *)
+      \cup UNION {{Case(<<<<a>>, <<"x">>>>, c, "none", -1, {}, "none", -1) : c \in {{}, {Len1(<<a>>)}}} :
+                     a \in {"A1048576", "A16777152", "A16777215", "A16777216"}}
 (* multi-byte characters, each of their bytes a symbol: every cut inside a character, one or two cuts *)
 BU == {<<"U1", "U2">>, <<"x", "E1", "E2", "E3", "x">>, <<"G1", "G2", "G3", "G4">>, <<"U1", "U2", "]", "E1", "E2", "E3">>}
 F10 == UNION {{Case(<<b>>, c, "none", -1, {}, "none", -1) : c \in SubsetsUpTo(5..(Len1(b) - 7), 2)} : b \in BU}
